@@ -1370,3 +1370,238 @@ class WOFF2FlavorDataOffsets(Contract):
                 del self.mod.brotli
             else:
                 self.mod.brotli = real
+
+
+@contract
+class WOFF2OrigOffsets(Contract):
+    """WOFF2Writer._calcSFNTChecksumsLengthsAndOffsets for three tables (one of them head) whose
+    data have ANY lengths: the 'original' offsets are those of an uncompressed sfnt with the same
+    tables in the same order - the first right after a directory of 12 + 16 * n bytes, each
+    next one at the previous offset plus the previous length rounded up to a multiple of four
+    (never more than three bytes of padding) - origLength is the data's length, the checksum
+    is taken over the data itself, for head with checkSumAdjustment (bytes 8..11) zeroed and
+    nothing else changed; the result is the end of the last table, padded."""
+    module = "fontTools.ttLib.woff2"
+    qualname = "WOFF2Writer._calcSFNTChecksumsLengthsAndOffsets"
+    props = ("C04",)
+    variants = ("head-first", "head-middle", "head-last")
+    level = "P"
+    assumptions = ("calcChecksum is a recorder returning a fresh symbol (own contract: CalcChecksum, any length)",)
+
+    def rebind(self):
+        return std("struct", "len", "bytes", "int")
+
+    def args(self, S, variant):
+        from collections import OrderedDict
+        order = {"head-first": ["head", "aaaa", "zzzz"], "head-middle": ["aaaa", "head", "zzzz"], "head-last": ["aaaa", "zzzz", "head"]}[variant]
+        self._S = S
+        self._sums = []
+
+        class _E:
+            pass
+        tables, lens = OrderedDict(), {}
+        for tag in order:
+            e = _E()
+            if tag == "head":
+                e.data = S.bytes("head", 54)
+                lens[tag] = 54
+            elif S.concrete:
+                e.data = bytes(min(S.int(tag + ".len", 0), 1 << 16))
+                lens[tag] = len(e.data)
+            else:
+                t = Tail(tag)
+                S.ctx.symbols[tag + ".len"] = t.n.t
+                S.ctx.assume_term(t.n.t >= 0)
+                e.data = SymBytes([], t)
+                lens[tag] = t.n
+            tables[tag] = e
+        cls = self.mod.WOFF2Writer
+        w = cls.__new__(cls)
+        w.tables = tables
+        return dict(self=w, _order=order, _lens=lens)
+
+    def call(self, f, a):
+        real = self.mod.calcChecksum
+        sums = self._sums
+        S = self._S
+
+        def calc(data):
+            v = S.int("sum%d" % len(sums), 0, 0xFFFFFFFF) if not S.concrete else 1000 + len(sums)
+            sums.append((data, v))
+            return v
+        self.mod.calcChecksum = calc
+        try:
+            return f(a.self), list(sums)
+        finally:
+            self.mod.calcChecksum = real
+
+    @staticmethod
+    def _post(a, r):
+        total, sums = r
+        if len(sums) != 3:
+            return False
+        cs = []
+        prev_end = 12 + 16 * 3
+        for k, tag in enumerate(a._order):
+            e = a.self.tables[tag]
+            L = a._lens[tag]
+            cs += [eq(e.origOffset, prev_end) if k == 0 else And(eq(e.origOffset % 4, 0), e.origOffset >= prev_end, e.origOffset - prev_end <= 3),
+                   eq(e.origLength, L), eq(e.checkSum, sums[k][1])]
+            if tag == "head":
+                got, d = _items(sums[k][0]), _items(e.data)
+                if len(got) != 54:
+                    return False
+                cs += [eq(g, 0 if 8 <= i < 12 else d[i]) for i, g in enumerate(got)]
+            else:
+                cs.append(sums[k][0] is e.data)
+            prev_end = e.origOffset + L
+        cs += [eq(total % 4, 0), total >= prev_end, total - prev_end <= 3]
+        return And(*cs)
+
+    ensures = [prop("offsets-of-the-uncompressed-sfnt", lambda a, old, r: WOFF2OrigOffsets._post(a, r))]
+
+
+@contract
+class WOFF2MasterChecksum(Contract):
+    """WOFF2Writer._calcMasterChecksum for two tables with EVERY checksum, original offset and
+    length: the directory summed is the one of the uncompressed sfnt - version, table count and
+    search fields, then one 16-byte entry per table in TAG order (not insertion order) holding
+    tag, checksum, ORIGINAL offset and ORIGINAL length - and the adjustment is
+    0xB1B0AFBA - (sum of table checksums + directory checksum) modulo 2**32."""
+    module = "fontTools.ttLib.woff2"
+    qualname = "WOFF2Writer._calcMasterChecksum"
+    props = ("C04",)
+    level = "P"
+    assumptions = ("calcChecksum is a recorder returning a fresh symbol (own contract: CalcChecksum, any length)",
+                   "SFNTDirectoryEntry.toString is re-stated as struct '>4sLLL' of its four fields (own contract: SFNTWriter.close writes the same entries)")
+
+    def rebind(self):
+        return _dir_rebind()
+
+    def args(self, S, variant):
+        from collections import OrderedDict
+        self._S = S
+
+        class _E:
+            pass
+        tables, vals = OrderedDict(), {}
+        for tag in ("zzzz", "aaaa"):
+            e = _E()
+            e.tag = tag
+            e.checkSum = S.int(tag + ".checkSum", 0, 0xFFFFFFFF)
+            e.origOffset = S.int(tag + ".origOffset", 0, 0xFFFFFFFF)
+            e.origLength = S.int(tag + ".origLength", 0, 0xFFFFFFFF)
+            e.offset = S.int(tag + ".offset", 0, 0xFFFFFFFF)
+            e.length = S.int(tag + ".length", 0, 0xFFFFFFFF)
+            tables[tag] = e
+            vals[tag] = (e.checkSum, e.origOffset, e.origLength)
+        cls = self.mod.WOFF2Writer
+        w = cls.__new__(cls)
+        w.tables, w.numTables, w.sfntVersion = tables, 2, "OTTO"
+        return dict(self=w, _vals=vals)
+
+    def call(self, f, a):
+        S, seen = self._S, []
+        real_calc, real_entry = self.mod.calcChecksum, self.mod.SFNTDirectoryEntry
+        st = std("struct")["struct"]
+
+        def calc(data):
+            v = S.int("dirsum%d" % len(seen), 0, 0xFFFFFFFF) if not S.concrete else 77 + len(seen)
+            seen.append((data, v))
+            return v
+
+        class _Entry:
+            def toString(self):
+                import struct as _struct
+                return (_struct if S.concrete else st).pack(">4sLLL", self.tag.encode("ascii"), self.checkSum, self.offset, self.length)
+        self.mod.calcChecksum, self.mod.SFNTDirectoryEntry = calc, _Entry
+        try:
+            return f(a.self), seen
+        finally:
+            self.mod.calcChecksum, self.mod.SFNTDirectoryEntry = real_calc, real_entry
+
+    @staticmethod
+    def _post(a, r):
+        adj, seen = r
+        if len(seen) != 1:
+            return False
+        d = _items(seen[0][0])
+        if len(d) != 12 + 32 or d[:4] != list(b"OTTO"):
+            return False
+
+        def be(bs):
+            v = 0
+            for b in bs:
+                v = v * 256 + b
+            return v
+        cs = [eq(be(d[4:6]), 2), eq(be(d[6:8]), 32), eq(be(d[8:10]), 1), eq(be(d[10:12]), 0)]
+        for k, tag in enumerate(("aaaa", "zzzz")):
+            o = 12 + 16 * k
+            cs += [eq(x, y) for x, y in zip(d[o:o + 4], tag.encode())]
+            cs += [eq(be(d[o + 4 + 4 * j:o + 8 + 4 * j]), a._vals[tag][j]) for j in range(3)]
+        total = a._vals["aaaa"][0] + a._vals["zzzz"][0] + seen[0][1]
+        cs.append(eq(adj, (0xB1B0AFBA - total) % (1 << 32)))
+        return And(*cs)
+
+    ensures = [prop("adjustment-over-the-uncompressed-directory", lambda a, old, r: WOFF2MasterChecksum._post(a, r))]
+
+
+@contract
+class WOFF2TotalSize(Contract):
+    """WOFF2Writer._calcTotalSize for EVERY header size, compressed size and directory-entry
+    lengths (two entries): metadata / private data are placed from the next multiple of four at
+    or after header + directory entries + compressed font data (at most three bytes later), and
+    the total is whatever that placement ends at."""
+    module = "fontTools.ttLib.woff2"
+    qualname = "WOFF2Writer._calcTotalSize"
+    props = ("C04",)
+    level = "P"
+    assumptions = ("_calcFlavorDataOffsetsAndSize is a recorder returning a fresh symbol (own contract: WOFF2FlavorDataOffsets)",)
+
+    def rebind(self):
+        return std("struct", "len", "bytes", "int")
+
+    def args(self, S, variant):
+        from collections import OrderedDict
+        lens, tables = [], OrderedDict()
+        for tag in ("aaaa", "zzzz"):
+            if S.concrete:
+                b = bytes(min(S.int(tag + ".len", 0), 64))
+                n = len(b)
+            else:
+                t = Tail(tag)
+                S.ctx.symbols[tag + ".len"] = t.n.t
+                S.ctx.assume_term(t.n.t >= 0)
+                b, n = SymBytes([], t), t.n
+
+            class _E:
+                def __init__(self, b):
+                    self.b = b
+
+                def toString(self):
+                    return self.b
+            tables[tag] = _E(b)
+            lens.append(n)
+        seen = []
+        end = S.int("flavor.end", 0, 0xFFFFFFFF)
+        cls = self.mod.WOFF2Writer
+
+        class _W(cls):
+            def _calcFlavorDataOffsetsAndSize(self, start):
+                seen.append(start)
+                return end
+        w = _W.__new__(_W)
+        w.tables = tables
+        w.directorySize = S.int("directorySize", 0, 0xFFFF)
+        w.totalCompressedSize = S.int("totalCompressedSize", 0, 0xFFFFFFFF)
+        return dict(self=w, _lens=lens, _seen=seen, _end=end)
+
+    @staticmethod
+    def _post(a, r):
+        if len(a._seen) != 1:
+            return False
+        raw = a.self.directorySize + a._lens[0] + a._lens[1] + a.self.totalCompressedSize
+        s = a._seen[0]
+        return And(eq(r, a._end), eq(s % 4, 0), s >= raw, s - raw <= 3)
+
+    ensures = [prop("flavor-data-from-the-padded-end-of-the-font-data", lambda a, old, r: WOFF2TotalSize._post(a, r))]
